@@ -131,6 +131,41 @@ Definition wrapped_verify (k : prefix_kind) (keypfx : list N) (bytes : list N) (
        | _ => if bytes_eqb (firstn 5 bytes) keypfx then inner (skipn 5 bytes) else VReject
        end.
 
+(* A keyset of several keys (bbs_verifier_factory.go, general case).  Entry i has an output prefix type and its
+   5-byte prefix (empty for RAW).  vf i / dv i: what the primitive of key i does on (prefix-less) bytes. *)
+Record kentry := { k_kind : prefix_kind; k_pfx : list N }.
+
+Fixpoint find_first {A} (f : nat -> kentry -> option A) (i : nat) (ks : list kentry) : option A :=
+  match ks with
+  | [] => None
+  | e :: r => match f i e with Some a => Some a | None => find_first f (S i) r end
+  end.
+
+Definition nonraw_match (pfx : list N) (e : kentry) : bool :=
+  match k_kind e with PRaw => false | _ => bytes_eqb (k_pfx e) pfx end.
+Definition is_raw (e : kentry) : bool := match k_kind e with PRaw => true | _ => false end.
+Definition accepted (v : verdict) : option unit := match v with VAccept => Some tt | _ => None end.
+
+(* wrappedVerifier.VerifyProof / Verify *)
+Definition wrapped_verify_ks (ks : list kentry) (bytes : list N) (vf : nat -> list N -> verdict) : verdict :=
+  if length bytes <? 5 then VReject
+  else match find_first (fun i e => if nonraw_match (firstn 5 bytes) e then accepted (vf i (skipn 5 bytes)) else None) 0 ks with
+       | Some _ => VAccept
+       | None => match find_first (fun i e => if is_raw e then accepted (vf i bytes) else None) 0 ks with
+                 | Some _ => VAccept
+                 | None => VReject
+                 end
+       end.
+
+(* wrappedVerifier.DeriveProof: the proof gets the prefix of the key that matched the signature *)
+Definition wrapped_derive_ks (ks : list kentry) (sig : list N) (dv : nat -> list N -> option (list N)) : option (list N) :=
+  if length sig <? 5 then None
+  else match find_first (fun i e => if nonraw_match (firstn 5 sig) e
+                                    then option_map (app (k_pfx e)) (dv i (skipn 5 sig)) else None) 0 ks with
+       | Some out => Some out
+       | None => find_first (fun i e => if is_raw e then dv i sig else None) 0 ks
+       end.
+
 (* ------------------------------------------------------------------ 3. exponent model *)
 
 Section Exponent.
